@@ -91,6 +91,8 @@ type interpreter struct {
 	domains     map[int]int
 	fe          *fastEvaluator
 	dbgCount    int
+	fillProtos  []iface
+	fillPlaced  int
 	liftCache   map[string]string
 	lifting     int
 	known       map[int]uint64
